@@ -21,7 +21,7 @@ RULE = ("configurations = template tables from a grammar: basetypes from {shot, 
         "configurations loaded by spil.conf in fresh interpreters (extrapolate, then inject), each also as a path configuration "
         "with no selectors / a selector matching no type / its own selectors. "
         "distinct = distinct (table, to_extrapolate) ; non-trivial = at least one type is extrapolated.")
-ASSUMPTIONS = ["to_extrapolate only lists types named basetype__key (as the grammar of the property says)"]
+ASSUMPTIONS = ["to_extrapolate lists explicitly configured types (named basetype__key, or a bare basetype name)"]
 SEP = "__"
 
 BASES = {
@@ -68,7 +68,7 @@ def single_tables(base, L, leaf_variant=False):
             for o in orders:
                 if o not in seen:
                     seen.append(o)
-                    yield o, [n for n, _ in o if SEP in n]
+                    yield o, [n for n, _ in o]
 
 
 def gen_tables(tier):
@@ -91,7 +91,7 @@ def gen_tables(tier):
             t1 = {t for _, t in e1}
             e2f = [(n, t) for n, t in e2 if n not in n1 and t not in t1]
             for inter in (e1 + e2f, e2f + e1, [x for p in itertools.zip_longest(e1, e2f) for x in p if x]):
-                yield inter, [n for n, _ in inter if SEP in n]
+                yield inter, [n for n, _ in inter]
     # three / four basetypes, short chains
     short = {b: [(e, x) for e, x in singles[b] if max((len(t.split("/")) for _, t in e), default=0) <= 3 and len(e) <= 2] for b in bl}
     for combo in itertools.product(*[short[b][:12] for b in bl[:3]]):
@@ -100,14 +100,14 @@ def gen_tables(tier):
             for n, t in e:
                 if n not in {a for a, _ in entries} and t not in {b for _, b in entries}:
                     entries.append((n, t))
-        yield entries, [n for n, _ in entries if SEP in n]
+        yield entries, [n for n, _ in entries]
     for combo in itertools.product(*[short[b][:5] for b in bl[:4]]):
         entries = []
         for e, _ in combo:
             for n, t in e:
                 if n not in {a for a, _ in entries} and t not in {b for _, b in entries}:
                     entries.append((n, t))
-        yield entries, [n for n, _ in entries if SEP in n]
+        yield entries, [n for n, _ in entries]
 
 
 def extr_subsets(extr, cap=6):
